@@ -82,7 +82,7 @@ class Renderer:
     raise ValueError(k)
 
   def stmts(self, ss, kind, ind):
-    op = "@=" if kind == "comb" else "<<="
+    op = "<<=" if kind == "ff" else "@="
     out = []
     pad = "  " * ind
     for s in ss:
@@ -137,7 +137,7 @@ class Renderer:
       else: body.append([f"    connect( {b}, {a} )"])
     blocks = []
     for b in c["blocks"]:
-      deco = "@update" if b["kind"] == "comb" else "@update_ff"
+      deco = {"comb": "@update", "ff": "@update_ff", "once": "@update_once"}[b["kind"]]
       lines = [f"    {deco}", f"    def {b['name']}():"] + (self.stmts(b["stmts"], b["kind"], 3) or ["      pass"])
       blocks.append(lines)
     if self.v.get("perm_stmts"):
